@@ -318,7 +318,11 @@ def parse_vtt(text: str):
     seen_cue = True
     m = _VTT_TIMING.fullmatch(timing)
     if m is None:
-      problems.append(("timing-line-syntax", f"line {at}: {timing!r}"))
+      if re.match(r"[ \t]*[0-9]", timing):
+        problems.append(("timing-line-syntax", f"line {at}: {timing!r}"))
+      else:
+        # text with an arrow at the start of a block: to a reader this is what payload text after an empty line looks like
+        problems.append(("stray-text-after-blank-line", f"line {at}: {timing!r} follows a blank line and is not a timing line"))
       continue
     g = m.groups()
     settings, pr = parse_settings(g[10] or "")
